@@ -13,15 +13,16 @@
       sits on the precedence ladder `| < & < == != < < > <= >= < + - < * / % < unary ! - < call/index < primary`: under a
       binary node of level k the left operand has level ≥ k (left associativity), the right operand level > k, the
       operator belongs to level k; unary operators apply to operands tighter than every binary level; anything looser
-      occurs only inside parentheses, brackets, braces or argument lists.  (That the leaves of the tree are the tokens in
-      source order — the other half of "the tree the source denotes" — is tied by the C01 correspondence runs, which
-      compare the evaluation of generated trees, printed with minimal and with redundant parentheses, against the
-      Python tree oracle and the model; a `yield` theorem is not stated because commas in list / record literals are
-      optional, so the token sequence is not a function of the tree.)
+      occurs only inside parentheses, brackets, braces or argument lists.  The other half — the tree is a parse *of the tokens in source order* — is
+      `expression_yields_its_tokens`: the tokens the expression parser consumes, read left to right, are exactly the
+      leaves, operators and brackets of the tree it returns in order (`Yields`, a relation rather than a function because
+      commas between list and record elements are optional and the token closing a group or an argument list is consumed
+      without inspection).  Shape (ladder) and yield together fix the parse.
 -/
 import Pakhi.Model.Interp
 import Pakhi.Model.Parser
 import Pakhi.Lemmas.Ladder
+import Pakhi.Lemmas.Yield
 namespace Pakhi
 namespace C01
 
@@ -123,6 +124,23 @@ theorem ladder_addsub (op : TK) (l r : Expr) (m : Meta) (h : (Expr.addsub op l r
   refine ⟨h3, h4, ?_, h1, h2⟩
   simp [levelOps] at h5
   rcases h5 with h5 | h5 <;> simp [h5]
+
+/-- **the tree is a parse of the consumed tokens, in order**: whatever `expression()` returns from a parser state yields
+    exactly the tokens between that state and the state it stops in -/
+theorem expression_yields_its_tokens (s : PS) (e : Expr) (s' : PS) (h : pExpr s = .ok (e, s')) :
+    ∃ ts, s.rest = ts ++ s'.rest ∧ Yields e ts := pExpr_yields h
+
+/-- what the yield says at a `+`/`-` node: left operand's tokens, then the operator token, then the right operand's -/
+theorem yields_addsub (op : TK) (l r : Expr) (m : Meta) (ts : List Token) (h : Yields (.addsub op l r m) ts) :
+    ∃ a t b, ts = a ++ t :: b ∧ t.kind = op ∧ Yields l a ∧ Yields r b := by
+  cases h with
+  | addsub hk hl hr => exact ⟨_, _, _, rfl, hk, hl, hr⟩
+
+/-- non-vacuity: the tokens `৫ + ২` (kinds only) are yielded by the tree `addsub + 5 2` -/
+example (n5 n2 : Num.Bits) :
+    Yields (.addsub .plus (.num n5 default) (.num n2 default) default)
+      [⟨.num n5, [], 1, []⟩, ⟨.plus, [], 1, []⟩, ⟨.num n2, [], 1, []⟩] :=
+  Yields.addsub (a := [_]) (b := [_]) rfl (.num rfl) (.num rfl)
 
 /-- non-vacuity: `1 + 2 * 3` as the parser builds it is a ladder, `(1 + 2) * 3` without its group node is not -/
 example : (Expr.addsub .plus (.num 0 default) (.muldiv .mul (.num 0 default) (.num 0 default) default) default).ladder = true := by decide
